@@ -113,6 +113,13 @@ where
         graph.ensure_weighted()?;
     }
 
+    if target.is_some() && !graph.has_node(&target.clone().unwrap()) {
+        return Err(Error {
+            kind: ErrorKind::NodeNotFound,
+            message: "Target node not found in graph".to_string(),
+        });
+    }
+
     let parallel =
         graph.number_of_nodes() > SERIAL_TO_PARALLEL_THRESHOLD && rayon::current_num_threads() > 1;
     let shortest_paths_vecs = match parallel {
